@@ -150,10 +150,73 @@ func scanPackage(dir string) (map[string]*varUse, error) {
 // mutate them (reviewed: each is a method that does not modify its receiver)
 var inventoryBaseline = map[string]string{}
 
+// scanSenderGoroutines: in the consensus message senders, a goroutine started by a Send* function must not
+// read the caller's message through the pointer parameter (callers reuse one message value across a loop,
+// e.g. OnMessageGroupInit for the share pieces): a function literal after `go` that mentions a
+// pointer-typed parameter of the enclosing function is flagged.
+func scanSenderGoroutines(file string) ([]string, error) {
+	fset := token.NewFileSet()
+	f, err := parser.ParseFile(fset, file, nil, 0)
+	if err != nil {
+		return nil, err
+	}
+	var out []string
+	for _, d := range f.Decls {
+		fd, ok := d.(*ast.FuncDecl)
+		if !ok || fd.Body == nil || fd.Type.Params == nil {
+			continue
+		}
+		ptr := map[*ast.Object]string{}
+		for _, fl := range fd.Type.Params.List {
+			if _, isPtr := fl.Type.(*ast.StarExpr); isPtr {
+				for _, n := range fl.Names {
+					if n.Obj != nil {
+						ptr[n.Obj] = n.Name
+					}
+				}
+			}
+		}
+		if len(ptr) == 0 {
+			continue
+		}
+		ast.Inspect(fd.Body, func(n ast.Node) bool {
+			gs, ok := n.(*ast.GoStmt)
+			if !ok {
+				return true
+			}
+			if lit, ok := gs.Call.Fun.(*ast.FuncLit); ok {
+				ast.Inspect(lit.Body, func(m ast.Node) bool {
+					if id, ok := m.(*ast.Ident); ok && id.Obj != nil {
+						if name, hit := ptr[id.Obj]; hit {
+							out = append(out, fmt.Sprintf("%s:%d %s reads *%s inside a goroutine", filepath.Base(file), fset.Position(id.Pos()).Line, fd.Name.Name, name))
+						}
+					}
+					return true
+				})
+			}
+			return true
+		})
+	}
+	return out, nil
+}
+
 func runInventory(res *hx.Result) {
 	repo := os.Getenv("VERIF_REPO")
 	if repo == "" {
 		repo = "/repo"
+	}
+	if hits, err := scanSenderGoroutines(filepath.Join(repo, "src/consensus/net/network_sender.go")); err != nil {
+		res.Violate("C13/inventory:scan-failed", err.Error(), "network_sender.go")
+	} else {
+		seen := map[string]bool{}
+		for _, h := range hits {
+			fn := strings.Fields(h)[1]
+			if !seen[fn] {
+				seen[fn] = true
+				res.Violate("C13/inventory:sender-goroutine-reads-message:"+fn, "a consensus message sender reads the caller's message from a goroutine it starts (the caller may already have overwritten it): "+h, h)
+			}
+		}
+		res.Count("inventory:sender-goroutines", fmt.Sprint(len(hits)), false)
 	}
 	for _, pkg := range []string{"src/consensus/groupsig", "src/consensus/groupsig/bn256"} {
 		vars, err := scanPackage(filepath.Join(repo, pkg))
